@@ -52,7 +52,7 @@ func main() {
 		n, _ := strconv.Atoi(os.Args[4])
 		checks.C16Shard(os.Args[2], sh, n)
 	case "c09solo":
-		checks.C09Solo()
+		checks.C09Solo(os.Args[2:]...)
 	case "c09race":
 		n := 50
 		if len(os.Args) > 2 {
